@@ -8,6 +8,7 @@ import (
 	"fmt"
 	"math"
 	"strings"
+	"time"
 
 	"verif/mc/drive"
 	"verif/mc/engine"
@@ -36,6 +37,7 @@ type c02Aux struct {
 	keyFix    string // fixture for the entity's own key
 	rawKnown  bool   // some known-OID extension carries a raw body
 	foreign   string // issuer artifact made by another tool: DN origin (c01ForeignDN)
+	zone      string // local time zone of the process ("" = UTC)
 }
 
 func c02AllKinds() []refcfg.Ext {
@@ -97,6 +99,11 @@ func c02Devs() []c02Dev {
 	add("uid", "issuer-empty-subject-1B", func(c *refcfg.CertCfg, _ *c02Aux) {
 		c.IssuerUID, c.SubjectUID = refcfg.Empty(), refcfg.Bin([]byte{0x80})
 	})
+	// the process runs in a local time zone other than UTC (the certificate's times are UTC all the same)
+	for _, z := range []string{"Europe/Berlin", "America/St_Johns", "Asia/Kathmandu", "Pacific/Kiritimati", "Pacific/Pago_Pago"} {
+		z := z
+		add("zone", z, func(_ *refcfg.CertCfg, aux *c02Aux) { aux.zone = z })
+	}
 	// key / signature algorithm pairs (self-signed: signature fits own key)
 	for _, k := range refx509.KeyAlgNames {
 		for _, s := range refx509.SigAlgNames {
@@ -193,7 +200,7 @@ func c02Devs() []c02Dev {
 var c02DevList = c02Devs()
 
 // dims whose full triple product is taken in thorough.
-var c02SmallDims = map[string]bool{"validity": true, "serial": true, "uid": true, "issuer": true}
+var c02SmallDims = map[string]bool{"validity": true, "serial": true, "uid": true, "issuer": true, "zone": true}
 
 func c02Enumerate(tier string, yield func(any)) {
 	n := len(c02DevList)
@@ -263,6 +270,15 @@ func c02Once(x *engine.Ctx, c *c02Case) (violations int) {
 		cfg.SigAlg = refcfg.DefaultSigAlg(cfg.KeyAlg)
 	}
 	d := &Dir{Certs: []*refcfg.CertCfg{cfg}}
+	if aux.zone != "" {
+		if loc, err := time.LoadLocation(aux.zone); err == nil {
+			saved := time.Local
+			time.Local = loc
+			defer func() { time.Local = saved }()
+		} else {
+			x.Cap("zone not loadable: " + aux.zone)
+		}
+	}
 	var foreignPem []byte
 	if aux.issuerAlg != "" {
 		ca := &refcfg.CertCfg{Path: "ca.yaml", Subject: "CN=Issuer, O=Test", KeyAlg: aux.issuerAlg}
@@ -379,7 +395,7 @@ func init() {
 	register(&engine.Check{
 		ID:          "C02",
 		Level:       "exploration",
-		Rule:        fmt.Sprintf("baseline configuration +- up to 2 deviations drawn from %d values in 7 dimensions (subject lengths across the 127/128 and 255/256 header transitions at every nesting level, validity across 1950/2049/2050/2200, 8 serial values, 12 unique-id settings, all 56 fitting key+signature algorithm pairs, 3 issuer key types, 25 extension sets incl. raw bodies of 127..65536 octets), all singles and all cross-dimension pairs, plus 200 unconfigured-serial draws; thorough adds every triple over the four small dimensions. Each certificate goes through a DER linter (minimal lengths, INTEGER, BOOLEAN, BIT STRING, OID, time forms, SET OF order, DEFAULT values absent, named-bit-list minimality), decode/re-encode, PEM re-encode, field comparison with the reference model, and crypto/x509 as second acceptor where it supports the curve. non-trivial = distinct deviation set that produced a certificate", len(c02DevList)),
+		Rule:        fmt.Sprintf("baseline configuration +- up to 2 deviations drawn from %d values in 8 dimensions (incl. 5 local time zones of the process) (subject lengths across the 127/128 and 255/256 header transitions at every nesting level, validity across 1950/2049/2050/2200, 8 serial values, 12 unique-id settings, all 56 fitting key+signature algorithm pairs, 3 issuer key types, 25 extension sets incl. raw bodies of 127..65536 octets), all singles and all cross-dimension pairs, plus 200 unconfigured-serial draws; thorough adds every triple over the four small dimensions. Each certificate goes through a DER linter (minimal lengths, INTEGER, BOOLEAN, BIT STRING, OID, time forms, SET OF order, DEFAULT values absent, named-bit-list minimality), decode/re-encode, PEM re-encode, field comparison with the reference model, and crypto/x509 as second acceptor where it supports the curve. non-trivial = distinct deviation set that produced a certificate", len(c02DevList)),
 		Bound:       map[string]string{"deviations from baseline": "<=2 (thorough: 3 over validity/serial/uid/issuer)"},
 		Assumptions: []string{"configurations with manipulations are excluded by the statement", "negative configured serials are outside C03's domain", "unconfigured serials are random: 200+ draws observe the length distribution, the bound (<=20 octets) is also argued from the constant in the source"},
 		Budget:      budgets(quickBudget, thoroughBudget),
